@@ -331,7 +331,23 @@ def r5_interning(rep, ctx):
                         return True
             return False
         if isinstance(v, ast.Subscript) and is_cache(v.value):
-            rep.ok("C07.R5", key, "returns a cache hit", node=st, fn=fn)
+            # the key of a hit must identify the request: its components are the request's own arguments or what
+            # they resolve to (default category of the unit, default unit of the category, rewritten legacy unit)
+            kt = res.term(v.slice)
+            foreign = []
+            for a_ in alternatives(kt):
+                if a_[0] != "tuple":
+                    continue
+                for c_ in a_[1]:
+                    for x_ in walk(c_):
+                        if x_[0] == "call":
+                            fname = x_[1][2] if x_[1][0] == "attr" else x_[1][1] if x_[1][0] in ("name", "field") else None
+                            # another query of the database (quantity type, base unit, category info ...) in the key
+                            if isinstance(fname, str) and fname.startswith("Get") and fname not in ("GetDefaultCategory", "GetDefaultUnit", "GetSingleton"):
+                                foreign.append("%s(...)" % fname)
+            rep.check(not foreign, "C07.R5", key, "returns a cache hit under a key made of the request's own components",
+                      "returns the cache entry stored under a key with the component(s) %s, which do not identify the request: a quantity of another category is returned (Scalar(v, u) and Scalar(v, u, default category of u) stop being equal)" % sorted(set(foreign)),
+                      node=st, fn=fn)
         elif isinstance(v, ast.Name) and v.id not in stored_names and all(cache_hit_term(x) for x in alternatives(res.term(v))):
             rep.ok("C07.R5", key, "returns a cache hit", node=st, fn=fn)
         elif isinstance(v, ast.Name) and v.id not in stored_names and all(
